@@ -10,7 +10,11 @@ Generated
   signed zeros; complex arguments pair two of these independently, or tie them (|im| = |re| 2^-k; points
   r (cos t, sin t) with r in [0.70,1.75] for the logarithm's unit-circle branch).  `cexp`: real part uniform in
   [-745.2, 709.78], tiny, and the band just above log(DBL_MAX); imaginary part any finite double, incl. huge
-  ones and neighbours of k pi/2.  Powers: a = exp(L/b) (cos t, sin t) with the logarithm L of the result
+  ones and neighbours of k pi/2; a quarter of the cexp cases cross the real-part ranges {normal, tiny, just below
+  overflow, 709.78..710.48 gap, scaled range up to 1454.9 and its edges, beyond (up to DBL_MAX), underflow, far
+  underflow} with the imaginary-part classes {+-0, the smallest four subnormals, subnormal, tiny normal, ordinary,
+  near k pi/2, huge} independently.  csqrt/clog/hypot/raw power arguments likewise cross the magnitude classes
+  {+-0, smallest subnormals, subnormal, tiny normal, ordinary, >= 2^990, DBL_MAX} of their two parts (2 of 15 pairs).  Powers: a = exp(L/b) (cos t, sin t) with the logarithm L of the result
   uniform over the representable range [-745, 709.7] so that results are representable *by construction*,
   integer b in [-200,200] (every special-cased value 0,+-1,+-2,+-3,+-99,+-100 included) and non-integer real b
   in +-[1e-6, 200].  The lattice {+-0, +-1.5, +-inf, NaN, +-5e-324, +-DBL_MAX}^2 for csqrt/clog and
@@ -20,8 +24,10 @@ Oracles (oracles/cmath_mp.py, mpmath at 320 bits, inputs converted exactly; self
 sin(1e22), and - for the Annex G tables - against the platform cmath)
   ulp      |got - exact| <= TOL ulp(|exact|) for the complex value (normwise) and, for csqrt/cexp/clog, per
            component in ulp of that component ("ulp" = spacing of doubles at that magnitude, 2^-1074 below
-           DBL_MIN).  Cases whose exact result has a component beyond DBL_MAX are discarded (statement:
-           "whose exact result is representable").
+           DBL_MIN).  The real and imaginary part are judged independently: when one of them is beyond DBL_MAX the
+           other one, if it is an ordinary double, must still be right (cexp: TOL ulp of that part; powers: the
+           same normwise budget counted in ulp of |a^b|); the overflowing part itself is not judged.  Only cases in
+           which no part of the exact result is representable are discarded.
   annexg   arguments with a zero imaginary part, an infinity or a NaN (csqrt, clog): C99 G.6.4.2 / G.6.3.2
            tables incl. the sign of zeros and of infinities; conj-symmetry is part of the tables.
   exact    double_factorial(n) == the correctly rounded exact integer n!! for every accepted n (<= 170); for
@@ -57,6 +63,9 @@ are still judged - a different symptom in the same region, or the same symptom e
   has a NaN angle, clog(-0+0i) = -inf+0i), KF-C20-cexp-overflow-gap (exp(x) overflows above 709.78 but the
   scaled path only starts at 710.4758: cexp(709.9+0.785i) = inf+inf i, exact 1.43e308 (1+i)),
   KF-C20-ipow-inverse-overflow (negative integer power computed as 1/a^|b|: 1e10^-31 = 0 instead of 1e-310),
+  KF-C20-cexp-inf-times-zero (Im z = +-0 and Re z above 709.78 outside the scaled range: exp(x)*sin(0) = inf*0,
+  cexp(1500+0i) = inf+NaN i) and KF-C20-pow-modulus-overflow (|a^b| > DBL_MAX: a part that is still a double comes
+  back as inf/NaN) - both found when parts of a partially overflowing result started to be judged separately,
   KF-C20-sqrtneg-general (special.py, is_real=False branch; accepted only where observed: |z| >= 2^511 -> NaN,
   |z| < 2^-510 -> NaN or error <= 8(1+2^-485/|z|) ulp, 0 < |Im| < |Re|/4 -> cancellation error <= 8(1+|Re/Im|) ulp,
   Re < 0 with Im = -0.0 -> upper side of the cut; every other off-axis argument must agree to 16 ulp;
@@ -74,6 +83,11 @@ Sensitivity (tools/mut.py on the generated C / on special.py; `-- --cases 6000 -
   complex.c  cf_cipow `negative_pow = 1` -> `0` (inverse dropped)                 cipow mul
   special_x.c table entry 9!! `945.00` -> `954.00`                                double_factorial exact n_got 9:..
   special.py  `(np.real(z) < 0.) * z_sqrt_abs * 1.0j` -> without `* 1.0j`         sqrt_neg agree (mode real)
+  complex.c  cf_scaled_cexp imaginary part uses the exponent of cos instead of sin (`exsin` -> `excos`): reachable only
+            through partially overflowing results                                 CAUGHT cexp scaled, component im
+  seeded/C20-5 (cf_scaled_cexp without the frexp normalisation of cos/sin: imaginary part wrong for subnormal Im z,
+            real part +inf in both trees): MISSED while partially overflowing results were discarded, CAUGHT by the
+            component clause in the scaled x subnormal cell (cexp scaled -> inaccurate, component im)
   out/proposed-fix-C20-1.diff applied to special.py: check passes, KF-C20-sqrtneg-general no longer reproduced
   (only the compiled side's own findings remain), repository test test_g_math_special_funcs.py still passes.
 """
@@ -118,6 +132,7 @@ CSQRT_THRESH = (1. / (1.0 + SQRT2)) * DBL_MAX
 CSQRT_TINY = 2.0 ** -1021
 LOG_DBL_MAX = math.log(DBL_MAX)            # 709.782712893384: exp() overflows above
 SCALED_CEXP_LOWER = 710.47586007394386
+SCALED_CEXP_UPPER = 1454.9159319953251
 
 RULE = ('Hypothesis draws a function and bit-built doubles (sign, exponent class in {2^-40..2^40, all normal exponents, '
         'subnormal, within 2^-4 of overflow, just above DBL_MIN, +-0}, 52 mantissa bits, sometimes tied |im|=|re|2^-k or '
@@ -133,7 +148,7 @@ ASSUMPTIONS = ['reference: mpmath %d-bit, inputs converted exactly, principal va
                'powers: max(4(1+|b|), 8(1+|b|(1+|Log a|))) ulp for every exponent (per unit of conditioning; independent of the implementation\'s |b|<100 switch)',
                'double_factorial: exact for n<=170; for n>=171 any exception is accepted',
                'C99 Annex G.6.4.2 (csqrt) and G.6.3.2 (clog) tables; sign of NaN and the documented "+-inf" entries not compared',
-               'cases whose exact result has a component above DBL_MAX are discarded (statement: exact result representable)']
+               'real and imaginary part are judged independently: a part that is representable must be right even when the other one overflows; a case is discarded only when no part of the exact result is representable']
 
 FNS = ['csqrt', 'clog', 'cexp', 'hypot', 'cipow', 'cpow', 'sqrt_neg', 'double_factorial']
 
@@ -273,7 +288,9 @@ class _R:
         return p[::-1] if self.below(2) else p
 
     def pair(self):
-        k = self.below(13)
+        k = self.below(15)
+        if k >= 13:
+            return self.cross()
         if k == 0:
             return self.mid(), self.mid()
         if k == 1:
@@ -298,6 +315,28 @@ class _R:
             return self.tied(self.mid)
         return self.circle()
 
+    # ---- extreme-exponent classes, to be crossed independently between the two parts of an argument
+    EXTREME = ['zero', 'sub_min', 'sub', 'tiny_normal', 'ordinary', 'big', 'max']
+
+    def extreme(self, cls=None):
+        cls = cls or self.pick(self.EXTREME)
+        if cls == 'zero':
+            return self.zero()
+        if cls == 'sub_min':
+            return self.sign() * self.rint(1, 4) * 5e-324              # the smallest few subnormals
+        if cls == 'sub':
+            return self.sub()
+        if cls == 'tiny_normal':
+            return self.normal(-1022, -1000)
+        if cls == 'ordinary':
+            return self.mid()
+        if cls == 'big':
+            return self.normal(990, 1023)
+        return self.sign() * self.pick([DBL_MAX, math.nextafter(DBL_MAX, 0.0), 2.0 ** 1023])
+
+    def cross(self):
+        return self.extreme(), self.extreme()
+
     def special_pair(self):
         sp = [math.inf, -math.inf, math.nan, 0.0, -0.0]
         k = self.below(3)
@@ -321,6 +360,8 @@ def _gen_cexp(r):
         d = r.unif(1e-9, 0.3465)
         y = (2 * r.rint(-8, 8) + 1) * (math.pi / 4.0) + r.unif(-0.98, 0.98) * (math.pi / 4.0 - math.acos(min(1.0, math.exp(-d))))
         return LOG_DBL_MAX + d, y
+    if r.below(4) == 0:
+        return _gen_cexp_cross(r)
     k = r.below(9)
     if k in (0, 1):
         x = r.unif(-745.2, 709.78)
@@ -357,8 +398,47 @@ def _gen_cexp(r):
     return x, y
 
 
+_CEXP_RE = ['normal', 'normal_small', 'near_overflow', 'gap', 'scaled', 'scaled_edges', 'beyond', 'underflow', 'far_underflow']
+_CEXP_IM = ['zero', 'sub_min', 'sub', 'tiny_normal', 'ordinary', 'near_half_pi', 'huge']
+
+
+def _gen_cexp_cross(r):
+    """real part in each of cexp's ranges x imaginary part in each magnitude class, chosen independently"""
+    cx, cy = r.pick(_CEXP_RE), r.pick(_CEXP_IM)
+    if cx == 'normal':
+        x = r.unif(-700.0, 709.0)
+    elif cx == 'normal_small':
+        x = r.extreme(r.pick(['zero', 'sub_min', 'sub', 'tiny_normal', 'ordinary']))
+        x = max(-700.0, min(700.0, x))
+    elif cx == 'near_overflow':
+        x = r.unif(709.0, LOG_DBL_MAX)
+    elif cx == 'gap':
+        x = r.unif(LOG_DBL_MAX, SCALED_CEXP_LOWER)
+    elif cx == 'scaled':
+        x = r.unif(SCALED_CEXP_LOWER, SCALED_CEXP_UPPER)
+    elif cx == 'scaled_edges':
+        x = _nudge(r.pick([SCALED_CEXP_LOWER, SCALED_CEXP_UPPER, 746.0, 1418.0, 1454.0]), r.rint(-2, 2))
+    elif cx == 'beyond':
+        x = r.pick([r.unif(SCALED_CEXP_UPPER, 1500.0), r.unif(1500.0, 1e5), abs(r.normal(20, 1023)), DBL_MAX])
+    elif cx == 'underflow':
+        x = r.unif(-760.0, -700.0)
+    else:
+        x = -r.pick([r.unif(760.0, 1e5), abs(r.normal(20, 1023)), DBL_MAX])
+    if cy == 'near_half_pi':
+        kk = r.rint(-8, 8) if r.below(2) else r.rint(-10 ** 15, 10 ** 15)
+        y = _nudge(kk * (math.pi / 2.0), r.rint(-3, 3))
+    elif cy == 'huge':
+        y = r.extreme(r.pick(['big', 'max']))
+    else:
+        y = r.extreme(cy)
+    return x, y
+
+
 def _gen_logmag(r):
     k = r.below(6)
+    if r.below(12) == 0:
+        # modulus of the result beyond DBL_MAX: one part can still be representable (argument next to an axis)
+        return r.unif(709.7, 712.0) if r.below(2) else r.unif(712.0, 760.0)
     return (r.unif(-745.0, 709.7), r.unif(-745.0, 709.7), r.unif(-30.0, 30.0), r.unif(-745.0, -700.0),
             r.unif(700.0, 709.7), r.unif(-1.0, 1.0))[k]
 
@@ -499,7 +579,9 @@ def fixed_cases(tier):
 def required_labels(tier):
     return ['fn:' + f for f in FNS] + [
         'csqrt:normal', 'csqrt:overflow_rescale', 'csqrt:tiny', 'clog:normal', 'clog:annulus', 'clog:huge',
-        'clog:both_subnormal', 'cexp:normal', 'cexp:overflow_gap', 'cexp:huge_angle', 'cexp:subnormal_result',
+        'clog:both_subnormal', 'cexp:normal', 'cexp:overflow_gap', 'cexp:scaled', 'cexp:beyond_scaled', 'cexp:partial_overflow', 'cexp:scaled:partial_im',
+        'cexp:scaled:partial_re', 'cexp:im=zero', 'cexp:im=subnormal', 'cexp:im=tiny_normal', 'cexp:im=ordinary', 'cexp:im=huge',
+        'cexp:huge_angle', 'cexp:subnormal_result', 'pow:modulus_overflows', 'pow:partial_overflow',
         'hypot:subnormal_result', 'pow:mul', 'pow:explog', 'pow:real_exponent', 'pow:inverse_of_overflowing_power',
         'pow:branch_cut', 'annexg:finite_zero_imag', 'annexg:inf_or_nan', 'sqrt_neg:real', 'sqrt_neg:general',
         'dfact:table', 'dfact:recursion', 'dfact:raises']
@@ -586,7 +668,20 @@ def _generic_symptom(got):
     return 'inaccurate'
 
 
+def _fmt1(v):
+    if v != 0 and not (O.mpf(10) ** -400 < abs(v) < O.mpf(10) ** 400):
+        m, e = O.mpmath.frexp(v)
+        return '%s*2^(%d)' % (O.mpmath.nstr(m, 17), e)
+    return O.mpmath.nstr(v, 20)
+
+
 def _fmt(exact):
+    if isinstance(exact, O.mpc):
+        return '(%s, %s)' % (_fmt1(exact.real), _fmt1(exact.imag))
+    return _fmt1(exact)
+
+
+def _fmt_old(exact):
     if isinstance(exact, O.mpc):
         return '(%s, %s)' % (O.mpmath.nstr(exact.real, 20), O.mpmath.nstr(exact.imag, 20))
     return O.mpmath.nstr(exact, 20)
@@ -674,31 +769,68 @@ def _eval_sqrt_log(case):
     return c.result()
 
 
+def _component_clause(c, fn, region, args_txt, got, exact, comp, tol, unit=None, symptom=None):
+    """One component of a complex result whose *other* component is not representable: it must still be right.
+    `unit` = the ulp the tolerance is counted in (default: the ulp of that component)."""
+    g = got.real if comp == 're' else got.imag
+    e = exact.real if comp == 're' else exact.imag
+    if math.isfinite(g):
+        err = float(abs(O.M(g) - e) / (unit if unit is not None else O.ulp(e)))
+    else:
+        err = math.inf
+    if err <= tol:
+        return
+    sym = symptom(got, exact, err, (comp,)) if symptom is not None else None
+    if sym is None:
+        sym = 'nan' if math.isnan(g) else ('inf' if math.isinf(g) else 'inaccurate')
+    c.fail({'fn': fn, 'clause': 'ulp', 'region': region, 'symptom': sym, 'where': '%s -> %s' % (region, sym), 'component': comp,
+            'other_component': 'overflows'},
+           '%s(%s) = %r; exact %s: the %s part is representable although the other one overflows, and is off by %.3g ulp '
+           '(tolerance %.3g)' % (fn, args_txt, got, _fmt(exact), 'real' if comp == 're' else 'imaginary', err, tol))
+
+
 def _eval_cexp(case):
     tc, _, _ = _mods()
     x, y = F(case['re']), F(case['im'])
     exact = O.cexp(x, y)
-    if not O.representable(exact):
+    rep_re, rep_im = abs(exact.real) <= O.DBL_MAX, abs(exact.imag) <= O.DBL_MAX
+    if not (rep_re or rep_im):
         return discard('result_not_representable', labels=['fn:cexp'])
     c = Collector(labels=['fn:cexp'], nontrivial=_nontrivial(x, y))
-    if LOG_DBL_MAX < x < SCALED_CEXP_LOWER:
-        region = 'overflow_gap'
-    else:
+    if x <= LOG_DBL_MAX:
         region = 'normal'
+    elif x < SCALED_CEXP_LOWER:
+        region = 'overflow_gap'
+    elif x <= SCALED_CEXP_UPPER:
+        region = 'scaled'
+    else:
+        region = 'beyond_scaled'
     c.label('cexp:' + region)
-    if abs(y) > 1e6:
+    ay = abs(y)
+    c.label('cexp:im=' + ('zero' if ay == 0 else 'subnormal' if ay < DBL_MIN else 'tiny_normal' if ay < 2.0 ** -1000
+                          else 'huge' if ay > 1e6 else 'ordinary'))
+    if ay > 1e6:
         c.label('cexp:huge_angle')
     if abs(exact) < O.DBL_MIN:
         c.label('cexp:subnormal_result')
     with repo_call('cexp'):
         got = tc.cexp(complex(x, y))
 
-    def symptom(g, ex, en):
+    def symptom(g, ex, en, comps=('re', 'im')):
         if region == 'overflow_gap' and math.isinf(g.real) and math.isinf(g.imag) \
                 and (g.real > 0) == (ex.real > 0) and (g.imag > 0) == (ex.imag > 0):
             return 'inf_both_right_signs'
+        if region in ('overflow_gap', 'beyond_scaled') and y == 0 and math.isnan(g.imag) and g.real == math.inf:
+            return 'inf_times_zero_imag_nan'
         return None
-    _ulp_clauses(c, 'cexp', region, '(%r, %r)' % (x, y), got, exact, TOL, symptom=symptom)
+    if rep_re and rep_im:
+        _ulp_clauses(c, 'cexp', region, '(%r, %r)' % (x, y), got, exact, TOL, symptom=symptom)
+    else:
+        # one part overflows, the other is an ordinary double: it is judged on its own
+        comp = 're' if rep_re else 'im'
+        c.label('cexp:partial_overflow', 'cexp:%s:partial_%s' % (region, comp))
+        c.nontrivial = c.nontrivial or (x != 0 and y != 0)
+        _component_clause(c, 'cexp', region, '(%r, %r)' % (x, y), got, exact, comp, TOL, symptom=symptom)
     return c.result()
 
 
@@ -734,7 +866,8 @@ def _eval_pow(case):
     else:
         apis = [('cpow', lambda: tc.cpow(complex(re, im), complex(b, 0.0)))]
     exact = O.cpow_int(re, im, b) if integer else O.cpow_real(re, im, b)
-    if not O.representable(exact):
+    rep_re, rep_im = abs(exact.real) <= O.DBL_MAX, abs(exact.imag) <= O.DBL_MAX
+    if not (rep_re or rep_im):
         return discard('result_not_representable', labels=['fn:' + case['fn']])
     c = Collector(labels=['fn:' + case['fn']], nontrivial=_nontrivial(re, im) and b not in (0, 1))
     # one bound for every exponent, independent of where the implementation switches from repeated multiplication to
@@ -753,15 +886,49 @@ def _eval_pow(case):
         c.label('pow:inverse_of_overflowing_power')
     if abs(exact) < O.DBL_MIN:
         c.label('pow:subnormal_result')
+    if abs(exact) > O.DBL_MAX:
+        # the modulus of the exact result is beyond DBL_MAX; one or (up to sqrt 2 DBL_MAX) both parts are still doubles
+        region = 'modulus_overflows'
+        c.label('pow:modulus_overflows')
+    p_abs = None
+    if integer and b < 0 and not a_zero:
+        p_abs = abs(O.cpow_int(re, im, -b))
+        if 0 < p_abs < O.DBL_MIN and abs(exact) > O.DBL_MAX:
+            # 1/a^|b| with a^|b| subnormal: the intermediate power has lost bits before it is inverted
+            region = 'inverse_of_underflowing_power'
+            c.label('pow:inverse_of_underflowing_power')
+    unit = O.ulp(abs(exact))
 
-    def symptom(g, ex, en):
+    def symptom(g, ex, en, comps=('re', 'im')):
         if region == 'inverse_of_overflowing_power' and g.real == 0 and g.imag == 0:
             return 'flushed_to_zero'
+        if region == 'inverse_of_underflowing_power':
+            # a^|b| carries an absolute error of a few 2^-1074 per multiplication: relative |b| 2^-1074 / |a^|b||
+            bound = tol + 8.0 * abs(b) * float(O.TINY / p_abs) * 2.0 ** 52
+            ok = True
+            for cp in comps:
+                gv, ev = (g.real, ex.real) if cp == 're' else (g.imag, ex.imag)
+                ok = ok and ((not math.isfinite(gv)) or abs(O.M(gv) - ev) <= bound * unit)
+            return 'lost_bits_bounded_or_nonfinite' if ok else None
+        if region == 'modulus_overflows':
+            # every judged part is either accurate or non-finite (intermediate overflow: inf, inf*0, inf-inf)
+            for cp in comps:
+                gv, ev = (g.real, ex.real) if cp == 're' else (g.imag, ex.imag)
+                if math.isfinite(gv) and not (abs(O.M(gv) - ev) <= tol * unit):
+                    return None
+            return 'representable_part_nonfinite'
         return None
+    if not (rep_re and rep_im):
+        c.label('pow:partial_overflow')
     for name, call in apis:
         with repo_call(name):
             got = call()
-        _ulp_clauses(c, name, region, '(%r, %r), %r' % (re, im, b), got, exact, tol, comp=False, symptom=symptom)
+        if rep_re and rep_im:
+            _ulp_clauses(c, name, region, '(%r, %r), %r' % (re, im, b), got, exact, tol, comp=False, symptom=symptom)
+        else:
+            # one part overflows: the other one is judged on its own, within the same normwise budget
+            _component_clause(c, name, region, '(%r, %r), %r' % (re, im, b), got, exact, 're' if rep_re else 'im', tol,
+                              unit=unit, symptom=symptom)
     return c.result()
 
 
